@@ -200,7 +200,8 @@ def match_finding(findings, violation):
     for finding in findings:
         if finding.get("status") != "known":
             continue
-        if finding["rule"] == violation["rule"] and \
+        rules = finding.get("rules") or [finding["rule"]]
+        if violation["rule"] in rules and \
                 finding.get("key", "") in violation.get("key", violation["msg"]):
             return finding
     return None
